@@ -2897,6 +2897,20 @@ v("C04", "unary-reply-decoded-in-the-reader-goroutine", "httpgrpc/client.go",
   "		b, err = ioutil.ReadAll(reply.Body)\n		reply.Body.Close()\n", "		b, err = ioutil.ReadAll(reply.Body)\n		reply.Body.Close()\n		if err == nil {\n			err = codec.Unmarshal(b, resp)\n		}\n", "R10", "response-not-filled-by-its-goroutines",
   "the reader goroutine fills the caller's message, possibly after the call returned Canceled")
 
+# ------------------------------------------------------------------ D28
+v("C05", "d28-no-finished-fence", "httpgrpc/server.go",
+  "		str.wmu.Lock()\n		str.finished = true\n		str.wmu.Unlock()\n", "", "R14", "finished-fence",
+  "pre-fix D28: nothing tells the stream that the handler has returned")
+v("C05", "fence-set-without-the-lock", "httpgrpc/server.go",
+  "		str.wmu.Lock()\n		str.finished = true\n		str.wmu.Unlock()\n", "		str.finished = true\n", "R14", "finished-fence",
+  "the flag is set without the write lock: a send in progress does not see it")
+v("C05", "send-ignores-the-fence", "httpgrpc/server.go",
+  "	if s.writeFailed || s.finished {", "	if s.writeFailed {", "R14", "writer-used-only-before-finish",
+  "SendMsg writes to the recycled ResponseWriter after the handler returned")
+v("C05", "fence-skipped-on-the-interceptor-path", "httpgrpc/server.go",
+  "		str.wmu.Lock()\n		str.finished = true\n		str.wmu.Unlock()\n", "		if streamInt == nil {\n			str.wmu.Lock()\n			str.finished = true\n			str.wmu.Unlock()\n		}\n", "R14", "finished-fence",
+  "with an interceptor installed the stream is never marked finished")
+
 
 def main():
     if os.path.isdir(OUT):
